@@ -122,3 +122,10 @@ def _v42(repo, mod):
     fn = repo.func(TF, "TestFactory.delete_statement_gracefully")
     s = find_stmt(fn, lambda s: isinstance(s, ast.If) and norm(s.test) == "statements[idx].used_variables() & dead_vars")
     return replace_node(mod, s.test, "not statements[idx].used_variables().isdisjoint(dead_vars)")
+
+
+@variant("C15", "clone-shares-the-type-registry-lists", TC, "C15.container", "clone copies the registry dict but shares its lists")
+def _v50(repo, mod):
+    fn = repo.func(TC, "TestCase.clone")
+    s = find_stmt(fn, lambda s: isinstance(s, ast.Expr) and norm(s) == "tc._rebuild_registry()")
+    return replace_node(mod, s, "tc._type_registry = dict(self._type_registry)")
